@@ -1,6 +1,6 @@
 (** C19 - Client romaji engine: every table spelling is typeable, conversion is total.
     Tables, consonants and the scan bound come from chokan.el (Gen/ElispTables.v, regenerated every run). *)
-From Chokan Require Import Base.Str Base.ListUtil Gen.ElispTables Kana.Romaji Kana.RomajiProofs.
+From Chokan Require Import Base.Str Base.ListUtil Gen.ElispTables Kana.Romaji Kana.RomajiProofs Kana.RomajiIdem.
 
 Definition R2H : str -> option str := r2h el_roman_table el_consonants el_scan_bound.
 Definition KATA : str -> str := hira_to_kata el_katakana_table.
@@ -31,6 +31,16 @@ Proof. exact (r2h_passthrough_prefix el_roman_table el_consonants el_scan_bound 
 Theorem C19_kana_inert : forallb (inert el_roman_table el_consonants) (map (fun i => 12353 + N.of_nat i)%N (seq 0 86)) = true.
 Proof. vm_compute. reflexivity. Qed.
 
+(** conversion is idempotent on its own output - for every input.  The table facts it rests on (no value is empty; the
+    characters of every value, and っ, occur in no key and are no doubling consonant) are computed on the table
+    regenerated from chokan.el *)
+Lemma el_values_inert : forallb (fun kv => negb (match snd kv with [] => true | _ => false end) && forallb (inert el_roman_table el_consonants) (snd kv)) el_roman_table = true.
+Proof. vm_compute. reflexivity. Qed.
+Lemma el_sokuon_inert : inert el_roman_table el_consonants SOKUON = true.
+Proof. vm_compute. reflexivity. Qed.
+Theorem C19_idempotent : forall s out, R2H s = Some out -> R2H out = Some out.
+Proof. exact (r2h_idempotent el_roman_table el_consonants el_scan_bound el_no_empty_key el_values_inert el_sokuon_inert). Qed.
+
 (** a doubled consonant becomes っ followed by the remaining consonant *)
 Theorem C19_sokuon : forall c rest, mem_chr c el_consonants = true ->
   R2H (c :: c :: rest) = option_map (cons SOKUON) (R2H (c :: rest)).
@@ -43,3 +53,5 @@ Theorem C19_kata_char : forall c, KATA [c] = match assoc_str [c] el_katakana_tab
 Proof. exact (hira_to_kata_char el_katakana_table). Qed.
 Theorem C19_kata_table : forallb (fun kv => str_eqb (KATA (fst kv)) (snd kv)) el_katakana_table = true.
 Proof. vm_compute. reflexivity. Qed.
+
+Print Assumptions C19_idempotent.
